@@ -26,6 +26,7 @@ def check(run):
     # every alignment of later writes relative to the encoder's 2 KiB staging buffer
     sessions += refexp.alignment_sweep(rng, range(0, 2101))
     res = E.run_sessions(run, sessions, need_model=True)
+    E.judge_builder(run, sessions, res)          # single-block sessions: the block-building model builds the same bytes
     seen = set()
     for s, r in zip(sessions, res):
         E.judge_model(run, s, r)
